@@ -1,27 +1,22 @@
 import Qats.Model.Dist
-import Qats.Lemmas.RealOps
-import Qats.Lemmas.SNOps
-import Mathlib.Tactic.Ring
-import Mathlib.Tactic.NormNum
-import Mathlib.Tactic.FieldSimp
-import Mathlib.Tactic.Linarith
+import Qats.Lemmas.RealOpsSimp
 /-!
-Bridging lemmas for the distribution formulas: the generated `Qats.Gen.wb_*`, `gu_*`, `gm_*`, `ecdf_*`, `w2g_*`,
-`wfw_*` at `α := ℝ` in ordinary Mathlib notation.  These are the *only* lemmas whose proofs look at the syntactic
-shape of the generated formulas; every other lemma of `Dist*.lean` is proved from the right-hand sides stated here.
+Bridging lemmas for the distribution formulas (C15): the generated `Qats.Gen.wb_*`, `gu_*`, `gm_*`, `ecdf_*` at
+`α := ℝ` in ordinary Mathlib notation.  These are the *only* lemmas whose proofs look at the syntactic shape of
+these generated formulas; every other lemma of `Dist*.lean` is proved from the right-hand sides stated here.
 Each proof is "unfold, normalise literals, normalise ring structure".
+
+The generic `TranscOps ℝ` simp lemmas are in `RealOpsSimp.lean`; the Gumbel-from-Weibull formulas (`w2g_*`, `wfw_*`,
+C17) are restated in `W2GOps.lean`.
 -/
 namespace Qats.Dist
-open Qats Qats.Gen Qats.SN
+open Qats Qats.Gen
 
 -- Every bridging proof is written `simp only [defs] <;> dist_norm` so that it keeps working whether or not the
 -- unfolding already closes the goal; the style linters below would flag exactly that robustness.
 set_option linter.unusedTactic false
 set_option linter.unreachableTactic false
 set_option linter.unnecessarySeqFocus false
-
-@[simp] theorem pi_real : (TranscOps.pi : ℝ) = Real.pi := rfl
-@[simp] theorem zetac_real (x : ℝ) : TranscOps.zetac x = (riemannZeta (x : ℂ)).re - 1 := rfl
 
 /-- Closes a goal `f a₁ … = g b₁ …` obtained after unfolding a generated formula: literals are normalised, then
 the two sides are compared up to ring normalisation (also under `^`, `exp`, `log`, `Gamma`). -/
@@ -66,24 +61,6 @@ theorem wb_kurt_eq (shape : ℝ) :
           - 3 * Real.Gamma (1 + 1 / shape) ^ 4) /
         (Real.Gamma (1 + 2 / shape) - Real.Gamma (1 + 1 / shape) ^ 2) ^ 2 := by
   simp only [wb_kurt, gamma_real] <;> dist_norm
-
-/-! ### Gumbel from Weibull -/
-
-theorem w2g_loc_eq (loc n scale shape : ℝ) :
-    w2g_loc loc n scale shape = loc + scale * Real.log n ^ (1 / shape) := by
-  simp only [w2g_loc, log_real, rpow_real] <;> dist_norm
-
-theorem w2g_scale_eq (n scale shape : ℝ) :
-    w2g_scale n scale shape = 1 / (shape / scale * Real.log n ^ ((shape - 1) / shape)) := by
-  simp only [w2g_scale, log_real, rpow_real] <;> dist_norm
-
-theorem wfw_loc_eq (n wa wb wc : ℝ) :
-    wfw_loc n wa wb wc = wa + wb * Real.log n ^ (1 / wc) := by
-  simp only [wfw_loc, log_real, rpow_real] <;> dist_norm
-
-theorem wfw_scale_eq (n wb wc : ℝ) :
-    wfw_scale n wb wc = wb / wc * Real.log n ^ ((1 - wc) / wc) := by
-  simp only [wfw_scale, log_real, rpow_real] <;> dist_norm
 
 /-! ### Gumbel (maxima) -/
 
